@@ -200,8 +200,8 @@ def check(recipe) -> list[Fail]:
             if n < 2:
                 continue
             a, b = model.atoms[op[1] % n], model.atoms[op[2] % n]
-            if a is b or frozenset((id(a), id(b))) in model.bonds:
-                continue
+            if a is b or (frozenset((id(a), id(b))) in model.bonds and (op[1] + op[2]) % 3):
+                continue     # (a second Bond object between an already bonded pair is made in a third of the cases: a legal multigraph)
             if name == "connect":
                 mol.connect(a, b, btype=BondType(op[3]))
             else:
@@ -256,6 +256,8 @@ def check(recipe) -> list[Fail]:
                 continue
             b = mol.bonds[op[1] % len(mol.bonds)]
             a1, a2 = (b.a1, b.a2) if op[2] else (b.a2, b.a1)
+            if model.bonds.count(frozenset((id(a1), id(a2)))) > 1:
+                continue      # a doubled bond is not a bridge
             # side of a2 in G - a1 (own BFS on the model)
             side, todo = {id(a2)}, [a2]
             byid = {id(x): x for x in model.atoms}
